@@ -106,10 +106,10 @@ ByteS == SeqsUpTo({0, 65, 255}, IF Big THEN 4 ELSE 3)
 BytesCands == {BytesV(y) : y \in ByteS} \cup {StrV(s) : s \in SeqsUpTo({"a", "=", " "}, 2)} \cup NonStrings
 BytesFamily == {With(BytesF, [encoding |-> e, required |-> rq]) : e \in {"base64", "hex"}, rq \in BOOLEAN}
 
-FileS == {<<"f">>, <<"d">>, <<"m">>, <<"$", "/", "f">>, <<"$", "/", "d">>, <<"$", "/", "m">>, <<>>, <<"$">>}
+FileS == {<<"f">>, <<"d">>, <<"m">>, <<"g">>, <<"d", "/", "g">>, <<"$", "/", "f">>, <<"$", "/", "d">>, <<"$", "/", "d", "/", "g">>, <<"$", "/", "m">>, <<>>, <<"$">>}
 FileCands == {StrV(s) : s \in FileS} \cup NonStrings
 FileFamily == {With(FilenameF, [exists |-> e, startdir |-> sd, required |-> rq]) :
-                 e \in {"none", "true", "false", "dir", "file"}, sd \in {<<>>, <<"$">>, <<"$", "/", "d">>}, rq \in BOOLEAN}
+                 e \in {"none", "true", "false", "dir", "file"}, sd \in {<<>>, <<"$">>, <<"$", "/", "d">>, <<"d">>}, rq \in BOOLEAN}
 
 \* typed containers whose items have a non-trivial normal form and on-disk form
 ItemFields == {With(IntF, [hasmin |-> TRUE, min |-> 0]),
